@@ -42,6 +42,12 @@ def finish(pid, tier, programs, t0, rule, bounds, outside, functions, assumption
     out = outcome or common.Outcome(pid)
     stats = run_batches(programs, batch=batch, harness_timeout=harness_timeout)
     counts = kani_runner.triage(pid, programs, out)
+    # kernel obligations of the E3 extras that failed without a native replay of their own: they support a violation found by the programs, they are not an alarm alone
+    for key, what in getattr(out, "pending", []):
+        if out.violations:
+            log("[%s] kernel obligation failed as well: %s: %s" % (pid, key, what[:200]))
+        else:
+            out.inconclusive.append("structure not recognised: %s: %s [all %d programs of this check agree with the reference]" % (key, what[:300], counts.get("success", 0)))
     wall = time.time() - t0
     ok = [p for p in programs if p.result and p.result.status == "success"]
     samples = [{"program": p.desc, "source": p.src} for p in ok[:1]] + [{"program": p.desc} for p in ok[1:6]]
